@@ -20,13 +20,13 @@ SWEEP_EXHAUSTIVE_NOTE = ("bounded sweep over B base documents (B = 4 quick, 40 t
                          "64th byte (every 7th byte in the thorough tier) and content.xml cut at every tag boundary")
 FEATURES = ["colruns", "rowruns", "s-single", "s-noc", "paragraphs", "spans", "emptyp", "stored", "utf16", "latin1",
             "colstyle", "trailing-empty-run", "annotations", "embedded-object", "links", "header-rows", "row-groups",
-            "covered-cells", "no-value-type", "no-mimetype"]
+            "covered-cells", "no-value-type", "no-mimetype", "filtered-rows", "sub-table", "dde-links"]
 FAULT_KINDS = ["truncate", "xml-cut", "member-missing", "not-a-zip", "corrupt-member", "bad-repeat", "missing-sheet",
                "deep-nesting", "no-spreadsheet"]
 RULE_TEXT = (
     "seeded scenarios: 1-3 sheets of 0-6 rows x 0-8 cells over an alphabet with runs of equal cells, equal adjacent rows, "
     "multiple / leading / trailing blanks, tabs, line breaks, XML-special and non-ASCII characters, encoded by the ODF "
-    "peer with a random subset of its 20 optional encoding features, read by ods_rows(path, k) under a seeded chunk "
+    "peer with a random subset of its 23 optional encoding features, read by ods_rows(path, k) under a seeded chunk "
     "schedule; 35% carry exactly one fault; plus the bounded sweep in sweep_note. Non-trivial: the requested sheet has a "
     "non-empty cell (fault-free) / the fault fired (fault batch). Distinct: (features used in the encoding, sheet count "
     "and k, table shape, classes of special content, fault kind and position class, chunk regime)."
